@@ -718,6 +718,28 @@ func Harness_C32_Redelivery() {
 	s.drain()
 }
 
+// seedOverlap: three delivery attempts of key 0 overlap (bound, none finished or cancelled yet), the
+// situation in which the tracker keeps one primary and two extra attempts for one entry.
+func (s *c32State) seedOverlap() {
+	for i := 0; i < 3; i++ {
+		s.now = c32Time("now")
+		s.bindResult(0, false)
+	}
+	s.checkCounts()
+}
+
+// Harness_C32_OverlappingAttempts: histories of k operations from three overlapping attempts of one
+// (uid, session, message): cancelling or finishing them in any order (tokens presented in any order,
+// also stale ones) keeps the per-token outcomes, the pending count and what Ack returns exact.
+func Harness_C32_OverlappingAttempts() {
+	s := c32New(c32Tri, 0)
+	s.seedOverlap()
+	for i, k := 0, c32Depth(2, 3); i < k; i++ {
+		s.step()
+	}
+	s.drain()
+}
+
 // Harness_C32_SingleOp: one operation of the full alphabet (invalid identities, zero and forged
 // tokens, tokens presented with any key, every batch shape up to 2 items, non-positive and
 // fractional TTLs, clock-stamped rows) on the re-delivery state extended by a second uid.
